@@ -142,6 +142,18 @@ def run_cases(rep, nd_mi, nd_gamma, incr, bins):
                          residual=float(res), where=where))
         terms.append('([seq [seq ((c%%:R)%%R : Qc) | c <- i] | i <- gen_mi %d %d] == %s)' % (N, d, seqseq([[lib.frac(v) for v in r] for r in rays])))
         meta.append(dict(kind='rays', N=N, d=d, impl='rays', pred_ok=bool((rays == J).all())))
+        # the seed matrix given explicitly as the identity in several representations (float, integer dtype, nested list of ints,
+        # float32): Gamma does not depend on S at all and the rays are J.S = J
+        for sname, S in (('float', numpy.eye(N)), ('int', numpy.eye(N, dtype=int)), ('list', numpy.eye(N, dtype=int).tolist()), ('float32', numpy.eye(N, dtype=numpy.float32))):
+            rep.count('seed matrix given as', sname)
+            try:
+                G2, rays2 = m.generate_Gamma_and_rays(N, d, S)
+                if not (numpy.array_equal(numpy.asarray(G2, dtype=float), G) and numpy.array_equal(numpy.asarray(rays2, dtype=float), numpy.asarray(J, dtype=float))):
+                    rep.violation('corr:Gamma:S-%s' % sname, 'generate_Gamma_and_rays(%d,%d,S) with S the identity given as %s differs from the default call' % (N, d, sname),
+                                  dict(kind='Gamma-S', N=N, d=d, S=sname, Gamma=numpy.asarray(G2, dtype=float).tolist()))
+            except Exception as e:
+                rep.violation('corr:Gamma:S-%s:raises' % sname, 'generate_Gamma_and_rays(%d,%d,S) with S the identity given as %s raises %r' % (N, d, sname, e),
+                              dict(kind='exception', call='generate_Gamma_and_rays', N=N, d=d, S=sname, exc=repr(e)))
     verdicts, logs = lib.eval_bool_cases(PID, IMPORTS, DEFS, terms, per_file=60)
     return terms, meta, verdicts, logs
 
@@ -253,8 +265,15 @@ def histories(rep, rng, tier):
                 if what == 'seeded':
                     M_ = rng.randint(1, 3)
                     S = numpy.array([[rng.randint(-2, 2) for _ in range(M_)] for _ in range(N)], dtype=float)
+                    if rng.random() < 0.5:
+                        S = S.astype(int)            # integer-valued seed matrices are given with an integer dtype just as well
+                        rep.count('history:seeded dtype', 'int')
                     G, rays = m.generate_Gamma_and_rays(N, d, S)
                     want = J @ S
+                    if (N, d) in first and not numpy.array_equal(numpy.asarray(G, dtype=float), first[(N, d)]):
+                        rep.violation('history:Gamma:seeded', 'generate_Gamma_and_rays(%d,%d,S): Gamma differs from the Gamma of the default call (it does not depend on S)' % (N, d),
+                                      dict(payload, S=S.tolist(), S_dtype=str(S.dtype)))
+                        break
                 else:
                     G, rays = m.generate_Gamma_and_rays(N, d)
                     want = J
